@@ -6,6 +6,8 @@ SEED='/verif/seeded'
 PLAN={  # seeded change -> checks to try (own property first)
  'r1-C01':['C01','C11'], 'r1-C02':['C02','C09','C01'], 'r1-C06':['C06','C10'], 'r1-C09':['C09'], 'r1-C10':['C10','C06'],
  'r1-C11':['C11','C02'], 'r1-C12':['C12','C02'], 'r1-C13':['C13'], 'r1-C14':['C14','C01'],
+ 'r2-C03':['C03','C17'], 'r2-C04':['C04','C03','C17'], 'r2-C05':['C05','C07'], 'r2-C07':['C07'], 'r2-C08':['C08'],
+ 'r2-C15':['C15'], 'r2-C16':['C16'], 'r2-C17':['C17'], 'r2-X1':['C12','C01'], 'r2-X2':['C13'], 'r2-X3':['C11','C01'],
 }
 def sh(cmd, **k): return subprocess.run(cmd, shell=True, capture_output=True, text=True, **k)
 def clean():
@@ -15,6 +17,7 @@ names=sorted(d for d in os.listdir(SEED) if os.path.isdir(os.path.join(SEED,d)) 
 for name in names:
     d=os.path.join(SEED,name)
     prop=re.sub(r'^r\d+-','',name)
+    prop={'X1':'C12','X2':'C13','X3':'C11'}.get(prop,prop)
     checks=PLAN.get(name,[prop] if re.match(r'^C\d\d$',prop) else [])
     meta_path=os.path.join(d,'meta.json')
     meta=json.load(open(meta_path)) if os.path.exists(meta_path) else {}
